@@ -342,8 +342,57 @@ def job(idx, sname, opts, tier, seed):
     return dict(records=recs, stats=stats)
 
 
+def job_sequence(sname, tier, seed):
+    """generation must be a function of its arguments: within ONE process, default -> (each single option flipped,
+    accepted or rejected) -> default must reproduce the first default output byte for byte (no option state leaks
+    from one call into the next)"""
+    t0 = time.time()
+    hname = f"C09:sequence:{sname}"
+    stats = dict(name=hname, cells=0, queries=0, solver_time=0.0, functions=[], resolutions={}, programs=0)
+    recs = []
+    os.makedirs(WORK, exist_ok=True)
+    opts_all = ALG_OPTS if sname.startswith("estimator(algorithms") else GENERIC_DEFAULT
+
+    def gen(opts):
+        dest = tempfile.mkdtemp(prefix="c09s_", dir=WORK)
+        try:
+            files = SETS[sname](dest, **opts)
+            return {fn: open(os.path.join(dest, fn)).read() for fn in files if os.path.exists(os.path.join(dest, fn))}
+        finally:
+            shutil.rmtree(dest, ignore_errors=True)
+    try:
+        first = gen({})
+    except Exception as e:
+        recs.append(dict(label="generate", status="crash", harness=hname, detail=f"{type(e).__name__}: {e}"[:500]))
+        return dict(records=recs, stats=stats)
+    for k, v in opts_all.items():
+        try:
+            gen({k: not v})
+        except Exception:
+            pass  # rejected combination: allowed, but it must not poison later calls
+        try:
+            again = gen({})
+            same = (again == first)
+            note = None if same else f"default output after a call with {k}={not v} differs from the first default output"
+        except Exception as e:
+            same, note = False, f"default generation after a call with {k}={not v} raised {type(e).__name__}: {str(e)[:200]}"
+        stats["programs"] += 1
+        recs.append(dict(label=f"default_after_{k}", status="proved" if same else "refuted", harness=hname, t=0.0, cell="history",
+                         replay=None if same else dict(confirmed=True, note=note)))
+    stats["cells"] = stats["programs"]
+    stats["wall"] = time.time() - t0
+    return dict(records=recs, stats=stats)
+
+
+SEQ_SETS = ["estimator(algorithms.generate_code)", "mr_ref_traj(codegen.generate_code)", "bezier_small(options)", "loglinear(options)",
+            "rdd2_small(options)"]
+SETS["rdd2_small(options)"] = _set_with_options("cyecca.models.rdd2", ["derive_input_acro", "derive_control_allocation"], "rdd2_small.c")
+
+
 def jobs(tier, seed):
-    return [(f"C09:{k}:{s}:{sorted(o.items())}", job, (k, s, o, tier, seed)) for k, (s, o) in enumerate(configs(tier))]
+    js = [(f"C09:{k}:{s}:{sorted(o.items())}", job, (k, s, o, tier, seed)) for k, (s, o) in enumerate(configs(tier))]
+    js += [(f"C09:sequence:{s}", job_sequence, (s, tier, seed)) for s in SEQ_SETS]
+    return js
 
 
 def evidence(tier, seed, recs, stats):
